@@ -708,29 +708,7 @@ func (s *State) reportWith(kind, msg string, m Model, verdict string) {
 			}
 		}
 		v.Inputs = s.inputsUnder(m)
-		memo := map[*Expr]uint64{}
-		for _, a := range hashOrder {
-			h, ok := m[a.h]
-			if !ok {
-				continue
-			}
-			ht := HashTarget{H: h}
-			good := true
-			for _, c := range a.cells {
-				x, ok := evalExpr(c.(*Expr), m, memo)
-				if !ok {
-					good = false
-					break
-				}
-				ht.Key = append(ht.Key, x)
-			}
-			if good {
-				v.Hashes = append(v.Hashes, ht)
-			}
-		}
-		if sd, ok := m[Var("hashseed", 32)]; ok {
-			v.Seed = sd
-		}
+		v.Hashes, v.Seed = hashTargets(m)
 	}
 	violations = append(violations, v)
 	if verbose {
@@ -864,4 +842,36 @@ func (s *State) monitor(fr *Frame, id, off, n int, write bool) {
 		}
 		wo.Mons[c] = &nm
 	}
+}
+
+// hashTargets lists, for every application of the uninterpreted hash whose
+// value the model fixes, the argument bytes and the hash value (replays realise
+// them with real keys).
+func hashTargets(m Model) ([]HashTarget, uint64) {
+	var out []HashTarget
+	memo := map[*Expr]uint64{}
+	for _, a := range hashOrder {
+		h, ok := m[a.h]
+		if !ok {
+			continue
+		}
+		ht := HashTarget{H: h}
+		good := true
+		for _, c := range a.cells {
+			x, ok := evalExpr(c.(*Expr), m, memo)
+			if !ok {
+				good = false
+				break
+			}
+			ht.Key = append(ht.Key, x)
+		}
+		if good {
+			out = append(out, ht)
+		}
+	}
+	var seed uint64
+	if sd, ok := m[Var("hashseed", 32)]; ok {
+		seed = sd
+	}
+	return out, seed
 }
